@@ -1430,6 +1430,10 @@ func (p *prover) addExecutedChecks(fn *ssa.Function, at ssa.Instruction) {
 func boundsGoals(p *prover, in ssa.Instruction) (goals []linExpr, descs []string, kind, expr string) {
 	one := newLin(1)
 	switch t := in.(type) {
+	case *ssa.Panic:
+		// an explicit panic is harmless exactly where it cannot be reached: the goal is falsehood, provable only from
+		// contradictory guards (a switch over an enumeration whose every value the callers pass is handled)
+		return []linExpr{newLin(-1)}, []string{"unreachable"}, "panic", "panic"
 	case *ssa.IndexAddr:
 		i, n := p.lin(t.Index), p.lenOfBase(t.X)
 		return []linExpr{i, n.add(i, -1).add(one, -1)}, []string{"index >= 0", "index < len"}, "index", describe(t.X) + "[" + describe(t.Index) + "]"
